@@ -398,10 +398,7 @@ func cmdBaseline(args []string) int {
 			if o.Soft {
 				continue
 			}
-			c := o.Name
-			if k := strings.LastIndex(c, "@"); k >= 0 {
-				c = c[:k]
-			}
+			c := claimName(o.Name)
 			if o.Status != "discharged" {
 				ok[c] = false
 			} else if _, seen := ok[c]; !seen {
